@@ -57,7 +57,7 @@ def run(P: Program, rep: Report):
                 fails.setdefault(("C09.R3", "duplicate-wrapper:" + p.split(" ")[0]), (hs, "duplicate-key block: " + p))
     rep.require_count("C09.R1", "add operations explored", n1, 60)
     rep.require_count("C09.R3", "duplicate wrappers inspected", n3, 60)
-    loc = P.func("library", "Library._add_to_dicts").loc
+    loc = P.cls("library", "Library").methods["add"].loc
     for (rule, c), (hs, msg) in sorted(fails.items()):
         rep.fail(rule, c, loc, f"{msg} [history: {hs}]")
     if not any(r == "C09.R1" for r, _ in fails):
